@@ -325,6 +325,15 @@ def to_str_num(p):
         neg, digs, first = _parse_sstr(val)
         if first is None:
             return False            # printed zero for a nonzero number
+        chars = val.chars if isinstance(val, SStr) else list(val)
+        fmt = p.get('fmt')
+        if fmt == 'fixed' and 'e' in chars:
+            return False            # fixed-point format was forced
+        if fmt == 'exp0' and 'e' not in chars:
+            return False            # show_zero_exponent: an exponent is always shown
+        mant = chars[:chars.index('e')] if 'e' in chars else chars
+        if fmt == 'full' and len([c for c in mant if not (isinstance(c, str) and c in '+-.')]) < dps:
+            return False            # strip_zeros=False: at least dps digits are shown
         q = first - dps + 1
         wmin = min([w for _, w in digs] + [q])
         s10 = max(-wmin, 0)
@@ -348,6 +357,30 @@ def to_str_num(p):
     return finish(ob, ob.prove(outs, good))
 
 
+def to_str_special(p):
+    """to_str of zero / +inf / -inf / nan (concrete run through the interpreter): documented literals"""
+    L = libmpf()
+    ob = Ob(80)
+    x = {'zero': FZERO, 'inf': FINF, 'ninf': FNINF, 'nan': FNAN}[p['kind']]
+    outs = ob.run(L.to_str, [x, p['dps']], dict(p.get('opts', {})))
+    want = _special_want(p)
+    return finish(ob, ob.prove(outs, lambda v, st: isinstance(v, str) and v == want))
+
+
+def _special_want(p):
+    if p['kind'] == 'zero':
+        t = '0.0' if p['dps'] else '.0'
+        return t + ('e+0' if p.get('opts', {}).get('show_zero_exponent') else '')
+    return {'inf': '+inf', 'ninf': '-inf', 'nan': 'nan'}[p['kind']]
+
+
+def to_str_special_concrete(p, m):
+    L = libmpf()
+    x = {'zero': FZERO, 'inf': FINF, 'ninf': FNINF, 'nan': FNAN}[p['kind']]
+    r = L.to_str(x, p['dps'], **dict(p.get('opts', {})))
+    return r == _special_want(p), 'to_str(%s, %d) = %r, documented %r' % (p['kind'], p['dps'], r, _special_want(p))
+
+
 def to_str_num_concrete(p, m):
     from decimal import Decimal
     L = libmpf()
@@ -360,6 +393,10 @@ def to_str_num_concrete(p, m):
         d = Decimal(s)
     except Exception as e:
         return False, 'to_str(%r, %d) = %r is not a parseable literal (%r)' % (x, dps, s, e)
+    fmt = p.get('fmt')
+    mant = s.split('e')[0]
+    if (fmt == 'fixed' and 'e' in s) or (fmt == 'exp0' and 'e' not in s) or (fmt == 'full' and sum(c.isdigit() for c in mant) < dps):
+        return False, 'to_str(%r, %d, %r) = %r does not have the requested format (%s)' % (x, dps, p.get('opts'), s, fmt)
     v = Fraction(d)
     if (v < 0) != (xv < 0) or v == 0:
         return False, 'to_str(%r, %d) = %r has the wrong sign / is zero' % (x, dps, s)
